@@ -237,11 +237,33 @@ def generate(o):
     v["update.append_min_diff"] = o.item("distogram.ops.update.append_min_diff", append_min_diff, PIN["update.append_min_diff"])
 
     # ---- _update_diffs
-    def ud_blocks():
+    def ud_guard():
+        """The guard of `_update_diffs` and the statements it protects -> (test under which the cache is maintained, statements).
+        Two spellings of the same function: `if <cache test>: <statements>`, and the early return `if <negated test>: return`
+        followed by the statements at the function's own level (a trailing bare `return` is not a statement of either)."""
         b = body_of(fn("_update_diffs"))
+        while b and isinstance(b[-1], ast.Return) and (b[-1].value is None or (isinstance(b[-1].value, ast.Constant) and b[-1].value.value is None)):
+            b = b[:-1]
         outer = one([n for n in b if isinstance(n, ast.If) and is_cache_test(n.test)], "_update_diffs: if <h.diffs>")
+        early = (len(outer.body) == 1 and isinstance(outer.body[0], ast.Return) and not outer.orelse
+                 and (outer.body[0].value is None or (isinstance(outer.body[0].value, ast.Constant) and outer.body[0].value.value is None)))
+        if not early:
+            return outer.test, outer.body
+        if b.index(outer) != 0:
+            raise KeyError("_update_diffs: the early return is the first statement")
+        t = outer.test
+        if isinstance(t, ast.Compare) and len(t.ops) == 1 and isinstance(t.ops[0], (ast.Is, ast.IsNot)):
+            neg = ast.Compare(left=t.left, ops=[ast.IsNot() if isinstance(t.ops[0], ast.Is) else ast.Is()], comparators=t.comparators)
+        elif isinstance(t, ast.UnaryOp) and isinstance(t.op, ast.Not):
+            neg = t.operand
+        else:
+            neg = ast.UnaryOp(op=ast.Not(), operand=t)
+        return ast.fix_missing_locations(ast.copy_location(neg, t)), b[1:]
+
+    def ud_blocks():
+        _, guarded = ud_guard()
         blocks = {}
-        for n in outer.body:
+        for n in guarded:
             if not isinstance(n, ast.If) or n.orelse:
                 continue
             for key in ("h.diffs[i-1]", "h.diffs[i]"):
@@ -332,8 +354,7 @@ def generate(o):
 
     # ---- the tests on the optional gap cache (`is not None` / `is None` / truthiness: an EMPTY cache is not None)
     def cache_ud():
-        b = body_of(fn("_update_diffs"))
-        return cache_bool(one([n for n in b if isinstance(n, ast.If) and is_cache_test(n.test)], "_update_diffs: if <h.diffs>").test)
+        return cache_bool(ud_guard()[0])
 
     def trim_turn():
         f = fn("_trim")
